@@ -351,9 +351,11 @@ func (d *Decoder) scan(data []byte, atEOF bool) (advance int, token []byte, err 
 
 	// Look for new blocks
 	switch l := startsBlockQuote(data); {
-	case l > 0 && l == len(data) && !atEOF:
+	case l > 0 && !atEOF && (l == len(data) || !utf8.FullRune(data[l:])):
 		// The quote start and the whitespace after it run up to the end of the
-		// data we have; more of it may follow, so ask for more data.
+		// data we have (or to the first bytes of a character that is not complete
+		// yet and may be whitespace too); more of it may follow, so ask for more
+		// data.
 		return 0, nil, nil
 	case l > 0 && !d.quoteStarted:
 		// If we haven't yet consumed our block quote start token, do so.
